@@ -1,1 +1,258 @@
 //! helpers shared by property modules
+
+/// Stream-filter plumbing shared by C07 and C08: filter menu, reference encoders, stream
+/// dictionaries for the library, guarded calls of the library's stream-decode entry points.
+#[cfg(any(feature = "c07", feature = "c08"))]
+#[allow(dead_code)]
+pub mod filt {
+    use oxidize_pdf::parser::objects::{PdfArray, PdfDictionary, PdfName, PdfObject, PdfStream};
+    use oxidize_pdf::parser::ParseOptions;
+    use refpdf::filters as rf;
+
+    #[derive(Clone, Copy, PartialEq, Eq, Debug, Hash)]
+    pub enum F {
+        Flate,
+        Lzw1,
+        Lzw0,
+        AHx,
+        A85,
+        RL,
+    }
+    pub const ALL_F: [F; 6] = [F::Flate, F::Lzw1, F::Lzw0, F::AHx, F::A85, F::RL];
+    impl F {
+        pub fn pdf_name(self) -> &'static str {
+            match self {
+                F::Flate => "FlateDecode",
+                F::Lzw1 | F::Lzw0 => "LZWDecode",
+                F::AHx => "ASCIIHexDecode",
+                F::A85 => "ASCII85Decode",
+                F::RL => "RunLengthDecode",
+            }
+        }
+        pub fn short(self) -> &'static str {
+            match self {
+                F::Flate => "flate",
+                F::Lzw1 => "lzw-ec1",
+                F::Lzw0 => "lzw-ec0",
+                F::AHx => "asciihex",
+                F::A85 => "ascii85",
+                F::RL => "runlength",
+            }
+        }
+        /// number of reference-encoder variants (all produce conforming encodings)
+        pub fn variants(self) -> usize {
+            match self {
+                F::Flate => 3,
+                F::Lzw1 | F::Lzw0 => 2,
+                F::AHx => 2,
+                F::A85 => 1,
+                F::RL => 2,
+            }
+        }
+        pub fn variant_name(self, v: usize) -> &'static str {
+            match (self, v) {
+                (F::Flate, 0) => "miniz-default",
+                (F::Flate, 1) => "miniz-stored",
+                (F::Flate, _) => "miniz-best",
+                (F::Lzw1 | F::Lzw0, 0) => "refpdf",
+                (F::Lzw1 | F::Lzw0, _) => "weezl",
+                (F::AHx, 0) => "upper",
+                (F::AHx, _) => "lower",
+                (F::RL, 0) => "greedy",
+                (F::RL, _) => "literals-only",
+                _ => "refpdf",
+            }
+        }
+        pub fn takes_predictor(self) -> bool {
+            matches!(self, F::Flate | F::Lzw1 | F::Lzw0)
+        }
+    }
+
+    pub fn weezl_lzw(data: &[u8], early_change: bool) -> Vec<u8> {
+        let mut enc = if early_change {
+            weezl::encode::Encoder::with_tiff_size_switch(weezl::BitOrder::Msb, 8)
+        } else {
+            weezl::encode::Encoder::new(weezl::BitOrder::Msb, 8)
+        };
+        enc.encode(data).expect("weezl encode")
+    }
+
+    /// RunLength encoding that never uses repeat runs (still conforming: literal runs of 1..128 + EOD).
+    fn rl_literals_only(data: &[u8]) -> Vec<u8> {
+        let mut o = Vec::with_capacity(data.len() + data.len() / 128 + 2);
+        for ch in data.chunks(128) {
+            o.push((ch.len() - 1) as u8);
+            o.extend_from_slice(ch);
+        }
+        o.push(128);
+        o
+    }
+
+    pub fn ref_encode(f: F, variant: usize, data: &[u8]) -> Vec<u8> {
+        match (f, variant) {
+            (F::Flate, 0) => rf::flate_encode(data),
+            (F::Flate, 1) => rf::flate_encode_level(data, 0),
+            (F::Flate, _) => rf::flate_encode_level(data, 9),
+            (F::Lzw1, 0) => rf::lzw_encode(data, true),
+            (F::Lzw1, _) => weezl_lzw(data, true),
+            (F::Lzw0, 0) => rf::lzw_encode(data, false),
+            (F::Lzw0, _) => weezl_lzw(data, false),
+            (F::AHx, 0) => rf::asciihex_encode(data),
+            (F::AHx, _) => rf::asciihex_encode(data).to_ascii_lowercase(),
+            (F::A85, _) => rf::ascii85_encode(data),
+            (F::RL, 0) => rf::runlength_encode(data),
+            (F::RL, _) => rl_literals_only(data),
+        }
+    }
+
+    /// One stage of a /Filter chain with its /DecodeParms entries (EarlyChange 0 is added
+    /// automatically for `Lzw0`).
+    #[derive(Clone, Debug)]
+    pub struct Stage {
+        pub f: F,
+        pub parms: Vec<(&'static str, i64)>,
+    }
+    impl Stage {
+        pub fn plain(f: F) -> Self {
+            Stage { f, parms: Vec::new() }
+        }
+        pub fn all_parms(&self) -> Vec<(&'static str, i64)> {
+            let mut p = self.parms.clone();
+            if self.f == F::Lzw0 {
+                p.push(("EarlyChange", 0));
+            }
+            p
+        }
+    }
+
+    fn name(s: &str) -> PdfObject {
+        PdfObject::Name(PdfName(s.to_string()))
+    }
+    fn parms_dict(p: &[(&'static str, i64)]) -> PdfObject {
+        let mut d = PdfDictionary::new();
+        for (k, v) in p {
+            d.insert(k.to_string(), PdfObject::Integer(*v));
+        }
+        PdfObject::Dictionary(d)
+    }
+
+    /// Build the library's stream object. `array_form`: write /Filter and /DecodeParms as
+    /// arrays even for a single filter (both forms are allowed by ISO 32000-1 Table 5).
+    pub fn make_stream(stages: &[Stage], raw: Vec<u8>, array_form: bool) -> PdfStream {
+        let mut d = PdfDictionary::new();
+        d.insert("Length".to_string(), PdfObject::Integer(raw.len() as i64));
+        if stages.len() == 1 && !array_form {
+            d.insert("Filter".to_string(), name(stages[0].f.pdf_name()));
+            let p = stages[0].all_parms();
+            if !p.is_empty() {
+                d.insert("DecodeParms".to_string(), parms_dict(&p));
+            }
+        } else if !stages.is_empty() {
+            d.insert("Filter".to_string(), PdfObject::Array(PdfArray(stages.iter().map(|s| name(s.f.pdf_name())).collect())));
+            if stages.iter().any(|s| !s.all_parms().is_empty()) {
+                let arr = stages
+                    .iter()
+                    .map(|s| {
+                        let p = s.all_parms();
+                        if p.is_empty() { PdfObject::Null } else { parms_dict(&p) }
+                    })
+                    .collect();
+                d.insert("DecodeParms".to_string(), PdfObject::Array(PdfArray(arr)));
+            }
+        }
+        PdfStream { dict: d, data: raw }
+    }
+
+    /// Library result: outer Err = panic ("msg @ file:line"), inner Err = the library's error text.
+    pub type LibResult = Result<Result<Vec<u8>, String>, String>;
+
+    pub fn lib_decode(s: &PdfStream) -> LibResult {
+        let opts = ParseOptions::default();
+        vx::guard(|| s.decode(&opts).map_err(|e| e.to_string()))
+    }
+    pub fn lib_decode_limit(s: &PdfStream, limit: usize) -> LibResult {
+        let opts = ParseOptions::default();
+        vx::guard(|| s.decode_with_limit(&opts, limit).map_err(|e| e.to_string()))
+    }
+
+    /// Deterministic data patterns (index → bytes of length n).
+    pub const PATTERNS: [&str; 4] = ["zeros", "counter", "all-pairs-new", "mixed"];
+    pub fn pattern(kind: usize, n: usize) -> Vec<u8> {
+        match kind {
+            0 => vec![0u8; n],
+            1 => (0..n).map(|i| (i % 256) as u8).collect(),
+            // x, x+s, x+1, x+1+s, ... for s = 1,2,...: every adjacent byte pair is new for the
+            // first 4608 bytes, so an LZW dictionary gains one entry per input byte
+            2 => (0..n)
+                .map(|i| {
+                    let s = 1 + i / 512;
+                    let x = (i % 512) / 2;
+                    if i % 2 == 0 { x as u8 } else { ((x + s) % 256) as u8 }
+                })
+                .collect(),
+            _ => (0..n).map(|i| ((i * 31 + i / 7 + (i * i) / 97) % 256) as u8).collect(),
+        }
+    }
+
+    pub fn short_err(r: &LibResult) -> String {
+        match r {
+            Ok(Ok(v)) => format!("Ok({} bytes: {})", v.len(), vx::show_bytes(v, 48)),
+            Ok(Err(e)) => format!("Err({})", vx::one_line(e, 160)),
+            Err(p) => format!("PANIC({})", vx::one_line(p, 200)),
+        }
+    }
+}
+
+/// Library object model -> reference object model, and a canonical (sorted-keys) rendering,
+/// for object-by-object comparisons (C04, C18, C19).
+#[cfg(any(feature = "c04", feature = "c18", feature = "c19"))]
+#[allow(dead_code)]
+pub mod objcmp {
+    use oxidize_pdf::parser::objects::PdfObject;
+    use refpdf::syntax::{Dict, Obj, StreamObj};
+
+    fn dict_to_ref(d: &oxidize_pdf::parser::objects::PdfDictionary) -> Dict {
+        let mut v: Vec<(Vec<u8>, Obj)> = d.0.iter().map(|(k, v)| (k.0.as_bytes().to_vec(), to_ref(v))).collect();
+        v.sort_by(|a, b| a.0.cmp(&b.0));
+        Dict(v)
+    }
+    pub fn to_ref(o: &PdfObject) -> Obj {
+        match o {
+            PdfObject::Null => Obj::Null,
+            PdfObject::Boolean(b) => Obj::Bool(*b),
+            PdfObject::Integer(i) => Obj::Int(*i),
+            PdfObject::Real(r) => Obj::Real(*r),
+            PdfObject::String(s) => Obj::Str(s.0.clone()),
+            PdfObject::Name(n) => Obj::Name(n.0.as_bytes().to_vec()),
+            PdfObject::Array(a) => Obj::Array(a.0.iter().map(to_ref).collect()),
+            PdfObject::Dictionary(d) => Obj::Dict(dict_to_ref(d)),
+            PdfObject::Stream(s) => Obj::Stream(Box::new(StreamObj { dict: dict_to_ref(&s.dict), data: s.data.clone() })),
+            PdfObject::Reference(n, g) => Obj::Ref(*n, *g),
+        }
+    }
+    /// The same object with every dictionary's keys sorted (dictionaries are unordered).
+    pub fn sorted(o: &Obj) -> Obj {
+        let sd = |d: &Dict| {
+            let mut v: Vec<(Vec<u8>, Obj)> = d.0.iter().map(|(k, v)| (k.clone(), sorted(v))).collect();
+            v.sort_by(|a, b| a.0.cmp(&b.0));
+            Dict(v)
+        };
+        match o {
+            Obj::Array(a) => Obj::Array(a.iter().map(sorted).collect()),
+            Obj::Dict(d) => Obj::Dict(sd(d)),
+            Obj::Stream(s) => Obj::Stream(Box::new(StreamObj { dict: sd(&s.dict), data: s.data.clone() })),
+            other => other.clone(),
+        }
+    }
+    /// Canonical text of an object (sorted keys; stream data included as-is, /Length normalised
+    /// by the serializer).
+    pub fn canon(o: &Obj) -> Vec<u8> {
+        refpdf::syntax::to_bytes(&sorted(o))
+    }
+    pub fn canon_lib(o: &PdfObject) -> Vec<u8> {
+        canon(&to_ref(o))
+    }
+    pub fn show(o: &Obj) -> String {
+        vx::show_bytes(&canon(o), 200)
+    }
+}
